@@ -341,9 +341,9 @@ def _subclassify(draw: t.Any, v: t.Any, depth: int = 0) -> t.Any:
         return _rebuild_seq(v, [_subclassify(draw, x, depth + 1) for x in v])
     if tg.is_map(v):
         return _rebuild_map(v, [(k, _subclassify(draw, x, depth + 1)) for (k, x) in v.items()])
-    if type(v) in (int, float, str, bytes) and draw(st.booleans()):
+    if type(v) in (int, float, str, bytes) and (type(v) is str or draw(st.booleans())):
         kind = draw(st.integers(0, 3))
-        if type(v) is str and kind == 0:
+        if type(v) is str and kind in (0, 2):
             return U.LoudStr(v)
         if kind == 1:
             pool = {int: [U.IE.P, U.IE0.ZERO, U.IE0.ONE], float: [U.FE0.NIL, U.FE0.HALF], str: [U.SE.RED, U.SE0.EMPTY, U.SE0.A]}.get(type(v))
@@ -365,6 +365,16 @@ def _insertify(draw: t.Any, v: t.Any, depth: int = 0) -> t.Any:
             pairs.pop(draw(st.integers(0, len(pairs) - 1)))
         return collections.defaultdict(draw(st.sampled_from([int, list, str, dict, float])), pairs)
     return v
+
+
+@st.composite
+def subclassed_cases(draw, specs: st.SearchStrategy[t.Any]) -> t.Any:
+    """-> [type spec, value, 'subclassed']: valid data whose scalars are instances of subclasses of their types."""
+    spec = draw(specs)
+    v = draw(tg.node(spec).valid())
+    if draw(st.booleans()):
+        v = reshape_all(draw, v)
+    return [spec, _subclassify(draw, v), 'subclassed']
 
 
 @st.composite
